@@ -21,7 +21,7 @@ ASSUMPTIONS = _c07.ASSUMPTIONS + [
     'raise ConnectionResetError); partial writes and half-open sockets are outside',
 ]
 BOUNDS = {
-    'quick': 'flat2 (detached and attached), flat3, mgr2x1, mgr1x2; trees map2, nested, next3; one crash of any worker/'
+    'quick': 'flat2 (detached and attached), flat3, mgr2x1, mgr1x2; trees map2, nested, next3, map2_slow (leaves with yield points inside one step); one crash of any worker/'
              'manager at ANY step of the run (crash step symbolic over the whole horizon) on the baseline schedule, and '
              'with <=1 delay on flat2/map2',
     'thorough': 'adds trees nested/next3, flat3, mgr1x2, a second crash, 2 delays',
@@ -45,12 +45,20 @@ def obligations(tier: str) -> list[dict]:
         obs.append(ob('mgr2x1/nested/crash1/K0', 'mgr2x1', ['nested'], 'crash', 0, 200, crashes=1,
                       crash_nodes=['m0', 'm1', 'w0', 'w536870912']))
         obs.append(ob('mgr1x2/map2/crash1/K0', 'mgr1x2', ['map2'], 'crash', 0, 200, crashes=1, crash_nodes=['m0', 'w0', 'w1']))
+        # a worker is in the middle of a long synchronous step when another node dies (its task code must not go on)
+        obs.append(ob('flat2/map2_slow/crash1/K0', 'flat2', ['map2_slow'], 'crash', 0, 200, crashes=1, crash_nodes=['w0', 'w1']))
+        obs.append(ob('flat2-attached/map2_slow/crash1/K0', 'flat2', ['map2_slow'], 'crash', 0, 200, crashes=1,
+                      crash_nodes=['w0', 'w1'], kind='attached'))
+        obs.append(ob('mgr2x1/map2_slow/crash1/K0', 'mgr2x1', ['map2_slow'], 'crash', 0, 200, crashes=1,
+                      crash_nodes=['m0', 'm1', 'w0', 'w536870912']))
+        obs.extend(obs_sharded(10, 'flat2/map2_slow/crash1/K1', 'flat2', ['map2_slow'], 'crash', 1, 300, crashes=1,
+                               crash_nodes=['w0', 'w1'], maxrank=1))
         obs.extend(obs_sharded(6, 'flat2/map2/crash1/K1', 'flat2', ['map2'], 'crash', 1, 300, crashes=1,
                                crash_nodes=['w0', 'w1'], maxrank=1))
     else:
         for topo, nodes in (('flat2', ['w0', 'w1']), ('flat3', ['w0', 'w1', 'w2']),
                             ('mgr2x1', ['m0', 'm1', 'w0', 'w536870912']), ('mgr1x2', ['m0', 'w0', 'w1'])):
-            for sh in ('map2', 'nested', 'next3'):
+            for sh in ('map2', 'nested', 'next3', 'map2_slow'):
                 for kind in (('detached', 'attached') if topo.startswith('flat') else ('detached',)):
                     obs.append(ob('%s-%s/%s/crash1/K1' % (topo, kind, sh), topo, [sh], 'crash', 1, 600, crashes=1,
                                   crash_nodes=nodes, kind=kind, maxrank=1))
